@@ -25,7 +25,10 @@ minimum. C05.7: zero matches raise SyncException before the normal return.
 C05.8: 'no pose used twice' needs a uniqueness mechanism — a loop-carried
 dependence from the accepted set into the accept decision, or a
 de-duplicating pass — its absence is reported (known finding F2). C05.9:
-every normal return has passed the matching and both reductions.
+every normal return has passed the matching and both reductions. C05.10:
+reduce_to_ids selects every materialised view and the timestamps with the same
+ids in every cache configuration (instances of C08.1/C08.3), so pose and
+timestamp of a kept pose stay together.
 """
 UNDECIDED = [
     "floating point: argmin ties, rounding of |t1 - t2| at epoch magnitudes",
@@ -49,7 +52,7 @@ MANIFEST = dict(
               "+ comparison normalisation + loop-carried dependence test",
 )
 FLOORS = {"C05.1": 3, "C05.2": 4, "C05.3": 4, "C05.4": 3, "C05.5": 1,
-          "C05.6": 2, "C05.7": 1, "C05.8": 1, "C05.9": 1}
+          "C05.6": 2, "C05.7": 1, "C05.8": 1, "C05.9": 1, "C05.10": 10}
 
 MTI = "evo.core.sync.matching_time_indices"
 ASSOC = "evo.core.sync.associate_trajectories"
@@ -201,6 +204,8 @@ def check(ctx):
            "take it (a pose of the longer trajectory is used twice)",
            key=KEY_F2)
 
+    _reduce_together(ctx)
+
     # ------------------------------------------------------------ associate
     snd = None
     base = Interp(prog).run(fa)
@@ -327,6 +332,17 @@ def check(ctx):
                    f"that did not go through matching_time_indices / "
                    f"reduce_to_ids (pairs are not checked against max_diff)",
                    key="C05.9:return-bypasses-matching")
+
+
+def _reduce_together(ctx):
+    """'k-th poses are unmodified copies, pose and timestamp together' rests
+    on reduce_to_ids selecting every materialised view and the timestamps with
+    the same ids (C08.1 / C08.3 instances for reduce_to_ids)"""
+    from ..core import import_rules
+    n = import_rules(ctx, "c08", ("C08.1", "C08.3"), "C05.10",
+                     pred=lambda o: "reduce_to_ids" in o.key or
+                     "subclass" in o.key)
+    ctx.require(n >= 10, "C05.10: reduce_to_ids instances not found")
 
 
 def _iter_source(el: T):
